@@ -88,6 +88,17 @@ PROPS["C06"] = {
     "explanation": "neighbour/path queries vs oracle", "assumptions": [],
 }
 
+STORE_NOTE = (" Ids, classes, relations and values are opaque tokens under symbolic execution (only ==/!=/truthiness observed) and real strings in the "
+              "concrete replay; any other use of a label aborts the harness as an engine mismatch.")
+PROPS["C05"] = {
+    "modules": ["harness.c05"], "level": "model_checking", "design_ref": "DESIGN.md 2/C05",
+    "level_text": "Lock-step differential harnesses: the same operation (sequence) with symbolic arguments runs on the shared-store backend, the per-graph "
+                  "backend and an executable reference model of the documented interface; results, exception classes and full graph content are compared "
+                  "three ways after every step, plus the absolute identity/uniqueness/merge clauses.",
+    "level_note": XH_NOTE + STORE_NOTE + " Sequences of depth 1 (all 19 operations) and depth 2 (quick: add/delete node first; thorough: 8 first operations) from one seed state.",
+    "explanation": "backend differential vs reference model", "assumptions": ["labels are opaque tokens (equality only)"],
+}
+
 NOT_APPLICABLE = {
     "C01": "every value on the GraphML/JSON text path crosses expat/lxml/json C code and temp files, where a symbolic value is "
            "concretised; what remains would be concrete sampling, i.e. a different technique (store-level half is decided under C04/C20)",
